@@ -57,6 +57,7 @@ UNITS = {
             ("src/header/mod.rs", ["struct:Header", "consts:Header"]),
             ("src/range/mod.rs", ["struct:Range", "struct:ContentRange", "consts:Range"]),
             ("src/request/mod.rs", ["struct:Request", "struct:Method", "const:METHOD"]),
+            ("src/http/mod.rs", ["struct:Version", "const:VERSION"]),
             ("src/response/mod.rs", ["struct:Response", "fn:Response::generate_body", "fn:Response::generate_response", "fn:Response::generate"]),
         ],
         "contracts": ["contracts/response.vc"],
